@@ -9,6 +9,7 @@ import lib
 
 ID = "C17"
 LEAN_MODULE = "UralModel.Props.C17"
+EXTRA_IMPORTS = ["UralModel.Props.C17Concrete"]
 THEOREMS = [
     # part A: links_from_html, for all href lists and all parameter functions
     "Ural.Props.C17.links_followable",
@@ -21,7 +22,23 @@ THEOREMS = [
     "Ural.Props.C17.links_order",
     "Ural.Props.C17.links_complete",
     "Ural.Props.C17.links_are_urls_partial",
+    "Ural.Props.C17.links_are_urls",
     "Ural.Props.C17.links_should_follow_partial",
+    # part A with the parameters INSTANTIATED (Props/C17Concrete.lean): is_url / urljoin /
+    # canonicalize_url are the Lean models, only the idna codec and the TLD table stay outside
+    "Ural.Props.C17.canon_preserves_is_url",
+    "Ural.Props.C17.canon_not_preserving_outside_region",
+    "Ural.Props.C17.canon_not_preserving_bad_puny",
+    "Ural.Props.C17.links_are_urls_concrete",
+    "Ural.Props.C17.links_are_urls_concrete_plain",
+    "Ural.Props.C17.links_should_follow_concrete",
+    "Ural.Props.C17.links_http_concrete",
+    "Ural.Props.C17.isUrlC_implies_http",
+    "Ural.Props.C17.isUrlC_total",
+    "Ural.Props.C17.links_not_base_concrete",
+    "Ural.Props.C17.links_canonical_concrete",
+    "Ural.Props.C17.links_unique_concrete",
+    "Ural.Props.C17.links_followable_concrete",
     # part B: urls_from_html, scanners on str and on bytes
     "Ural.Props.C17.scan_bytes_eq_str",
     "Ural.Props.C17.urls_from_html_bytes_eq_str",
@@ -34,6 +51,15 @@ TABLE_OBLIGATIONS = [
     "Ural.Props.C17.html_patterns_twins",
     "Ural.Props.C17.html_patterns_shape",
     "Ural.Props.C17.http_protocol_shape",
+    # the is_url patterns, read off the regenerated terms (Lemmas/UrlPattern.lean)
+    "Ural.UrlPattern.url_shape",
+    "Ural.UrlPattern.class_facts",
+    "Ural.UrlPattern.label_facts",
+    "Ural.UrlPattern.http_shape",
+    "Ural.UrlPattern.special_no_x",
+    "Ural.UrlPattern.protocol_shape",
+    "Ural.UrlPattern.patterns_noNullRep",
+    "Ural.UrlPattern.hostRe_eq",
 ]
 RULE = (
     "A case is an HTML-like document (a list of pieces rendered to a str) and a base URL. "
@@ -46,11 +72,17 @@ RULE = (
     "to canonicalization, duplicates (also up to canonicalization), entity-encoded delimiters "
     "(&amp; &#x2F; &#47;), IDN. Every case is run as str AND as UTF-8 bytes through "
     "urls_from_html and, for each of the 8 combinations of canonicalize / unique / "
-    "strip_fragment, through links_from_html (model vs implementation: 19 lines per case, the "
+    "strip_fragment, through links_from_html (model vs implementation: 19 lines per case + up to 8 "
+    "lines `links_concrete` = the same call on the model with is_url / urljoin / canonicalize_url / "
+    "PROTOCOL_RE INSTANTIATED by their Lean models, only the idna codec and the TLD table shipped, "
+    "withheld for the option settings under which a string handed to the parser models lies outside "
+    "their stated domain: non-ASCII cased character in a host, NFKC check, IPv4 tail in an IPv6 literal; the "
     "first being a three-way comparison of the match spans of URL_IN_HTML_RE: real re / generic "
     "interpreter of Py/Re.lean on the regenerated term / hand-written scanner; "
     "the model gets urljoin / is_url / canonicalize_url / PROTOCOL_RE as tables computed with "
-    "the real functions), and through the oracle. Order: regression corpus, then every "
+    "the real functions), and through the oracle. Order: regression corpus, then documents of 5 anchors "
+    "over STRUCTURED URLS (protocol x userinfo x host x port x tail: every factor alone, host x tail, "
+    "userinfo x host, port x host, then seeded products; relative hrefs; the witnesses of KF-C17-3..5 and FX-C17-ca9f3e6), then every "
     "document of 1 piece and of 2 pieces over the core inventory (bases rotating), then seeded "
     "random documents of 1..6 pieces over the full inventory x 3 bases. Non-trivial = the "
     "document holds at least one anchor AND (a script block, or a non-ASCII character, or an "
@@ -64,7 +96,8 @@ EXHAUSTIVE = {
 TRUSTED = [
     "Lean 4 kernel; axioms of every listed theorem audited to be within {propext, Classical.choice, Quot.sound}",
     "hand-written Lean models UralModel/Model/UrlsFromHtml.lean (leftmost-greedy scanners for SCRIPT_TAG / URL_IN_HTML over any symbol type, instantiated at Char and UInt8) and Model/LinksFromHtml.lean (filter chain, should_follow_href), tied to the code by differential execution (this run); pattern strings, flags and the parsed character tests of the four compiled regexes are regenerated on every run (Gen/HtmlPatterns.lean) and enter through decide-checked table obligations",
-    "urljoin, is_url, canonicalize_url, PROTOCOL_RE.match are PARAMETERS of the links model (theorems hold for all functions); in the correspondence their values are computed by the harness with the real functions and shipped as tables",
+    "urljoin, is_url, canonicalize_url, PROTOCOL_RE.match are PARAMETERS of the links model in Props/C17.lean (theorems hold for all functions; stream links_from_html: their values are computed by the harness with the real functions and shipped as tables) and are INSTANTIATED in Props/C17Concrete.lean / stream links_concrete by the Lean models of C16 (is_url over the regenerated patterns, safe_urlsplit(...).hostname = Py.urlsplit + accessors), C15 (Py.urljoin) and C01/C02 (whole-function canonicalize_url); what stays outside is the idna codec (attempt_to_decode_idna) and the TLD table (is_valid_tld), shipped per case; the theorem canon_preserves_is_url assumes of the codec only PunyLabelSafe (a label of the is_url patterns decodes to a label of the patterns), which is FALSE for CPython's codec exactly on KF-C17-4 and is evaluated on the real codec for every decoded label (oracle cross-check)",
+    "the parser models (Py.urlsplit, accessors, urljoin) are compared with CPython, not proved equal to it; stated restrictions: str.lower is ASCII lower-casing on hosts, _checknetloc (NFKC) not modelled, _check_bracketed_host approximated; cases outside are withheld from links_concrete (histogram label concrete-model:*) and KF-C17-5 lies there",
     "html.unescape is a parameter of the theorems; the driver implements &amp; &lt; &gt; &quot; &apos; and numeric references with ';' and the stream only keeps documents on whose raw hrefs CPython's html.unescape agrees with that subset",
     "UTF-8: Lean core's String.utf8EncodeChar / ByteArray.utf8Decode? (round trip proved in core) stand for CPython's codec; the driver checks utf8(doc) against the bytes CPython produced for every case",
     "CPython's re engine (backtracking search semantics) is what the hand-written scanners are compared with, not verified; for URL_IN_HTML_RE the generic backtracking interpreter of Py/Re.lean runs on the regenerated term next to the hand scanner on every case (three-way); SCRIPT_TAG_RE (\\b, look-ahead) and the bytes twins have no translation in that framework (two-way)",
@@ -74,12 +107,15 @@ ASSUMPTIONS = [
     "the structured-document theorem is about well-formed documents (an href does not contain its own quote, nor ASCII whitespace / '>' / a leading quote when unquoted; no '<' inside attribute text, hrefs or text; no further ' href=' after the href; scripts are closed)",
 ]
 UNPROVED = (
-    "'every yielded link is accepted by is_url' is proved only under the hypothesis that "
-    "canonicalize_url preserves is_url (links_are_urls_partial); with canonicalize=True the "
-    "clause is explored by the oracle on the implementation (the two inputs on which it used to "
-    "fail - astral IDN, one-digit port - were repaired in /repo, 13903ce and 7e90a9e, and stay in "
-    "the corpus). What html.unescape, urljoin, is_url, canonicalize_url compute is "
-    "outside the model (parameters)."
+    "Nothing of the statement is left to the oracle alone for the model: since /repo 6e8a1b4 links_from_html "
+    "tests is_url again after canonicalize_url, so 'every yielded link is accepted by is_url' is a theorem "
+    "for ARBITRARY parameters (links_are_urls, no hypothesis). The preservation theorem about the concrete "
+    "models stays (canon_preserves_is_url on the class region: ASCII scheme, no '@' behind the authority, "
+    "idna decoder mapping host labels to host labels) together with the witnesses that outside that class "
+    "canonicalize_url does NOT preserve is_url (canon_not_preserving_outside_region / _bad_puny; the former "
+    "findings KF-C17-3/4/5, whose inputs stay in the corpus: with the fix such links are dropped, not yielded). "
+    "Not proved: that the parser models equal CPython's urlsplit / urljoin (compared on every run), what "
+    "html.unescape computes (parameter of part B), the idna codec and the TLD table (shipped)."
 )
 
 # ----------------------------------------------------------------------------------------
@@ -238,6 +274,102 @@ RAW = [
     "<a href=&quot;/q&quot;>",
     "<a href=/amp&amp>",
 ]
+
+
+# ----------------------------------------------------------------------------------------
+# structured URLs (hrefs assembled from protocol x userinfo x host x port x tail): the inputs
+# of the clause "every yielded link is accepted by is_url" / of `canonicalize_url preserves
+# is_url`; found by notes/c17-canon-isurl-search.py (9.7 M products, three classes of
+# counterexamples = the three known findings KF-C17-3/4/5)
+# ----------------------------------------------------------------------------------------
+U_PROTOS = ["http://", "https://", "HTTP://", "hTtPs://", "http" + LONG_S + "://"]
+U_UIS = ["", "u@", "u:p@", ":@", "u:@", ":p@", "u%40x:p%3A@", "a@b@", "u%20v@", "\xe9@", "U:P@", "u:p:q@", "%41@", "u%0A@", "a\x01b@", "\x01@"]
+U_HOSTS = [
+    "a.com", "A.COM", "a.b.co.uk", "localhost", "LOCALHOST", "1.2.3.4", "223.255.255.254", "1.02.3.4",
+    "xn--bcher-kva.de", "XN--BCHER-KVA.DE", "xn--ki8h.ws", "b\xfccher.de", "a_b.com", "a-b.com", "a--b.com",
+    "a.xn--p1ai", "a.\u0440\u0444", "xn--a.com", "xn--zz-.com", "a.museum", "a.invalidtld", "a" * 64 + ".com", "a" * 65 + ".com",
+    "0.0.0.0", "256.1.1.1", "a.b", "a.co", ASTRAL + ".ws", "xn--ls8h.la", "xn--80ak6aa92e.com", "a.com.", "xn--bcher-kva.xn--p1ai",
+]
+# hosts of the known findings: is_url accepts them only through a userinfo that crosses the
+# authority (KF-C17-3), or their canonical form is refused (KF-C17-4 puny label with a leading /
+# trailing hyphen, KF-C17-5 U+0130 lower-cases to two characters)
+U_HOSTS_ODD = ["x_.com", "-a.com", "a_.com", "1.02.003.4", "[::1]", "\uff11.2.3.4", "xn---a-cja.com", "xn----9fa.com", DOT_I * 40 + ".com"]
+U_PORTS = ["", ":80", ":443", ":8080", ":0", ":00", ":080", ":00080", ":65535", ":65536", ":99999", ":", ":1", ":\u0661"]
+U_TAILS = [
+    "", "/", "/a/b", "/a/../..", "/.", "/..", "/a/./b/", "//a//b", "?q=1", "?", "#", "#f", "/?#", "?a=1&b=2", "/%7Ex", "/%2e%2e/x",
+    "/a b", "/a\tb", "/a%0Ab", "/a%20", "/\xa0", "/%C2%A0", "/%E3%80%80", "/a\x01b", "/%40c.com", ";p=1", "/a;p?q#f", "/" + LSEP, "/%zz",
+    "/a%2Fb", "/a?b=%26&c=%3D%23", "/?a=b#%23", "/a/", "/a/.", "/a/..", "#a#b", "??", "/?b=2&a=1", "/\\", "/\x7f", "/\x85", "/ #", "# ", "/a\x1c",
+]
+# tails with an '@' behind the authority (the userinfo of the is_url patterns, \S+, reaches them)
+U_TAILS_AT = ["/@c.com", "/@c.com/..", "#@c.com", "?@c.com", "?a@c.com#f", "/x@c.com/../..", "?a=1#@"]
+U_RELATIVE = ["x", "../x", "./", "/abs", "//c.com/y", "?q", "#f", "a/../../b", "//c.com:080/%7E/../z", "//u@c.com", "/x@c.com/.."]
+
+
+def _esc_attr(h):
+    return h.replace("&", "&amp;").replace('"', "&quot;").replace("<", "&lt;").replace(">", "&gt;")
+
+
+def url_doc(hrefs, base, note=None):
+    c = mk([anchor(_esc_attr(h)) for h in hrefs], base, note)
+    c["urls"] = True
+    return c
+
+
+def url_corpus():
+    b0 = BASES[0]
+    # KF-C17-3: the authority of the canonical link is not of url shape
+    yield url_doc(["http://x_.com/@c.com/.."], b0, "KF-C17-3")
+    yield url_doc(["http://x_.com#b@c.com/"], b0, "KF-C17-3 (strip_fragment)")
+    yield url_doc(["http://[::1]/@a.com/..", "http://-.com/@a.com/.."], b0, "KF-C17-3")
+    # KF-C17-4: punycode label whose decoding starts / ends with a hyphen
+    yield url_doc(["http://xn---a-cja.com/", "http://xn----9fa.com/x"], b0, "KF-C17-4")
+    # FX-C17-ca9f3e6 (was KF-C17-6 = KF-C01-1): brackets in the userinfo, the canonical link did not
+    # parse; canonicalize_url raises ValueError now (the generator ends there)
+    yield url_doc(["http://a.com/before", "http://u[::1%7A]@a.com/", "http://a.com/after"], b0, "FX-C17-ca9f3e6")
+    # KF-C17-5: U+0130 lower-cases to two characters, the label outgrows 64
+    yield url_doc(["http://" + DOT_I * 40 + ".com/"], b0, "KF-C17-5")
+    # near misses that are fine
+    yield url_doc(["http://a.com/@c.com/..", "http://x_.com/@c.com", "http://xn---a-9ia.com/", "http://" + DOT_I * 30 + ".com/", "http://\x01@a.com", "http://:@a.com/"], b0)
+
+
+def url_hrefs(rng, tier):
+    """enumerated: every factor varied alone around http://a.com/a/b, then host x tail, userinfo
+    x host, port x host (the pairs that interact), then seeded random products"""
+    out = []
+    for p in U_PROTOS:
+        out.append(p + "a.com/a/b")
+    for ui in U_UIS:
+        for h in ["a.com", "xn--bcher-kva.de", "1.2.3.4", "localhost"]:
+            for t in ["", "/a/../..", "#f"]:
+                out.append("http://" + ui + h + t)
+    for h in U_HOSTS + U_HOSTS_ODD:
+        for t in U_TAILS + U_TAILS_AT:
+            out.append("http://" + h + t)
+    for po in U_PORTS:
+        for h in ["a.com", "A.COM", "1.2.3.4", "xn--bcher-kva.de"]:
+            for t in ["", "/x", "?q"]:
+                out.append("https://" + h + po + t)
+    n = 1500 if tier == "quick" else 30000
+    for _ in range(n):
+        if rng.random() < 0.8:
+            out.append(
+                rng.choice(U_PROTOS) + rng.choice(U_UIS)
+                + rng.choice(U_HOSTS + (U_HOSTS_ODD if rng.random() < 0.1 else []))
+                + rng.choice(U_PORTS)
+                + rng.choice(U_TAILS + (U_TAILS_AT if rng.random() < 0.3 else []))
+            )
+        else:
+            out.append(rng.choice(U_RELATIVE) + rng.choice(["", "?q=%7E", "#f", "/..", "/%2E%2E/z"]))
+    return out
+
+
+def url_cases(rng, tier):
+    for c in url_corpus():
+        yield c
+    hs = url_hrefs(rng, tier)
+    k = 5
+    for i in range(0, len(hs), k):
+        yield url_doc(hs[i : i + k], BASES[(i // k) % len(BASES)])
 
 
 # ----------------------------------------------------------------------------------------
@@ -428,7 +560,21 @@ def corpus():
 
 
 def cases(rng, tier):
+    """the stream `links_concrete` runs on the corpus, on every structured-URL document, on every
+    1-piece document and on every third of the others (they vary the HTML around the same hrefs)"""
+    k = 0
+    for c in _cases(rng, tier):
+        if len(c.get("pieces") or []) >= 2 and not c.get("note") and not c.get("urls"):
+            k += 1
+            if k % 3:
+                c["concrete"] = False
+        yield c
+
+
+def _cases(rng, tier):
     for c in corpus():
+        yield c
+    for c in url_cases(rng, tier):
         yield c
     full = full_inventory()
     core = core_inventory()
@@ -574,10 +720,15 @@ def canon(op, out):
 
 
 def impl(case):
-    out = [_spans(case["doc"]), _urls(case["doc"]), _urls(case["doc"].encode("utf-8"))]
+    hs = _urls(case["doc"])
+    out = [_spans(case["doc"]), hs, _urls(case["doc"].encode("utf-8"))]
     for combo in COMBOS:
         for as_bytes in (False, True):
             out.append(_links(case, as_bytes, combo))
+    if isinstance(hs, list) and case.get("concrete", True):
+        for combo, w in zip(COMBOS, _concrete_plan(case, hs)):
+            if w is not None:
+                out.append(_links(case, False, combo))
     return out
 
 
@@ -681,7 +832,121 @@ def _tables(case, combo, hrefs):
         t["isurl"][r] = bool(is_url(r, **IS_URL_KW))
         if c and t["isurl"][r]:
             t["canon"][r] = _exc(canon, r, strip_fragment=s)
+            # also what is_url says of the canonical form (asked by the model once
+            # links_from_html re-tests it: notes/fixes/links-from-html-rechecks-canonical-url.diff)
+            if isinstance(t["canon"][r], str) and t["canon"][r] not in t["isurl"]:
+                t["isurl"][t["canon"][r]] = bool(is_url(t["canon"][r], **IS_URL_KW))
     return t
+
+
+def _resolved_strings(case, combo, hrefs):
+    """every string one of the parser models (urlsplit / accessors inside is_url, urljoin,
+    canonicalize_url) is applied to for this case and option setting, computed with the REAL
+    functions: base, canonical base, hrefs, resolved hrefs, canonical resolved hrefs"""
+    m = _m()
+    c, _u, s = combo
+    canon, proto, urljoin = m["canon"], m["pat"].PROTOCOL_RE, m["utils"].urljoin
+    base = case["base"]
+    out = [base]
+    if c:
+        try:
+            base = canon(base, strip_fragment=s)
+        except Exception:  # noqa
+            return out
+        out.append(base)
+    for h in hrefs:
+        if not isinstance(h, str) or not h:
+            continue
+        out.append(h)
+        if proto.match(h):
+            r = h
+        else:
+            try:
+                r = urljoin(base, h)
+            except ValueError:
+                continue
+            out.append(r)
+        if c:
+            try:
+                out.append(canon(r, strip_fragment=s))
+            except Exception:  # noqa
+                pass
+    return out
+
+
+_XN = re.compile(r"(?i)xn--[^./?#:@\\\[\]]*")
+
+
+def outside_concrete(strings):
+    """None, or why the case is outside the stated domain of the component models
+    (Py/UrlAccessors.lean header: str.lower on a non-ASCII cased character of a host, NFKC
+    check, IPv4 tail in an IPv6 literal) — decided from the REAL parser's answers"""
+    import urlrt
+    import canon_common as cc
+
+    for x in strings:
+        for y in (x, x.strip(), "http://" + x.strip()):
+            why = urlrt.outside_model(y)
+            if why:
+                return why
+        try:
+            why = urlrt.outside_model(cc.clean_impl(x, "https"))
+        except Exception:  # noqa
+            why = None
+        if why:
+            return why
+    return None
+
+
+_puny_memo, _tld_memo = {}, {}  # pure functions of the label (per worker process)
+
+
+def concrete_world(strings):
+    """the two tables the concrete model still takes from outside: attempt_to_decode_idna on
+    every xn-- label in sight, is_valid_tld on every label of every hostname in sight"""
+    m = _m()
+    puny_fn, safe_urlsplit = m["utils"].attempt_to_decode_idna, m["utils"].safe_urlsplit
+    from ural.tld import is_valid_tld
+
+    puny, tlds = {}, {}
+    for x in set(strings):
+        for mt in _XN.finditer(x):
+            k = mt.group(0)
+            k = k[:4].lower() + k[4:]
+            for kk in (k, "".join(ch.lower() if ch.isascii() else ch for ch in k)):
+                if kk not in puny:
+                    if kk not in _puny_memo:
+                        _puny_memo[kk] = puny_fn(kk)
+                    puny[kk] = _puny_memo[kk]
+        for t in (x, x.strip()):
+            try:
+                h = safe_urlsplit(t).hostname
+            except ValueError:
+                h = None
+            if h:
+                for lab in h.split("."):
+                    if lab not in tlds:
+                        if lab not in _tld_memo:
+                            _tld_memo[lab] = bool(is_valid_tld(lab))
+                        tlds[lab] = _tld_memo[lab]
+    return puny, sorted([k, v] for k, v in tlds.items())
+
+
+_plan_cache = {}
+
+
+def _concrete_plan(case, hrefs):
+    """per option combination: None (outside the models' domain, line withheld) or the world"""
+    key = (case["doc"], case["base"])
+    if key in _plan_cache:
+        return _plan_cache[key]
+    if len(_plan_cache) > 64:
+        _plan_cache.clear()
+    plan = _plan_cache[key] = []
+    for combo in COMBOS:
+        ss = _resolved_strings(case, combo, hrefs)
+        plan.append(None if outside_concrete(ss) else concrete_world(ss))
+    return plan
 
 
 def ops(case):
@@ -705,6 +970,12 @@ def ops(case):
             o = {"f": "links_from_html", "doc": doc, "bytes": as_bytes, "base": case["base"], "canonicalize": combo[0], "unique": combo[1]}
             o.update(t)
             out.append(o)
+    # the same calls with the parameters INSTANTIATED (linksFromHtmlConcrete): nothing is
+    # shipped but the idna codec and the TLD table
+    if isinstance(hs, list) and case.get("concrete", True):
+        for combo, w in zip(COMBOS, _concrete_plan(case, hs)):
+            if w is not None:
+                out.append({"f": "links_concrete", "doc": doc, "bytes": False, "base": case["base"], "canonicalize": combo[0], "unique": combo[1], "strip_fragment": combo[2], "puny": w[0], "tlds": w[1]})
     return out
 
 
@@ -723,7 +994,12 @@ def oracle(case):
     known finding never masks something else in the same case), else the first failure"""
     fails = _oracle_all(case)
     for f in fails:
-        if not (kf_astral_idn(case, f) or kf_one_digit_port(case, f)):
+        if f.startswith("not-is_url:"):
+            t = theorem_contradicted(case, f)
+            if t:
+                return t
+    for f in fails:
+        if not any(k(case, f) for k in KF_PREDICATES):
             return f
     return fails[0] if fails else None
 
@@ -803,7 +1079,7 @@ def _oracle_all(case):
 # known findings
 # ----------------------------------------------------------------------------------------
 def _refused_link(failure):
-    mt = re.search(r"yields ('(?:[^'\\]|\\.)*'|\"(?:[^\"\\]|\\.)*\") which is_url", failure)
+    mt = re.search(r"yields ('(?:[^'\\]|\\.)*'|\"(?:[^\"\\]|\\.)*\") which (?:is_url|is not an absolute)", failure)
     if not mt:
         return None
     import ast
@@ -837,6 +1113,173 @@ def kf_one_digit_port(case, failure):
     except ValueError:
         return False
     return port is not None and 0 <= port <= 9 and re.search(r":\d(?:$|[/?#])", l) is not None
+
+
+def _origins(case, failure):
+    """the resolved hrefs of the document whose canonical form is the refused link of a
+    `not-is_url` failure with canonicalize=True (recomputed with the real functions)"""
+    if not failure.startswith("not-is_url:") or "canonicalize=True" not in failure:
+        return []
+    l = _refused_link(failure)
+    if l is None:
+        return []
+    m = _m()
+    canon, proto, urljoin = m["canon"], m["pat"].PROTOCOL_RE, m["utils"].urljoin
+    s = "strip_fragment=True" in failure
+    try:
+        base = canon(case["base"], strip_fragment=s)
+    except Exception:  # noqa
+        return []
+    hs = _urls(case["doc"])
+    out = []
+    for h in hs if isinstance(hs, list) else []:
+        if not h:
+            continue
+        try:
+            r = h if proto.match(h) else urljoin(base, h)
+            if m["is_url"](r, **IS_URL_KW) and canon(r, strip_fragment=s) == l:
+                out.append(r)
+        except Exception:  # noqa
+            pass
+    return out
+
+
+def _authority_only(r):
+    """scheme://netloc of a resolved href, as the parser reads it"""
+    sp = _std_urlsplit(r.strip())
+    return sp.scheme + "://" + sp.netloc, sp
+
+
+def kf_userinfo_crosses_authority(case, failure):
+    """KF-C17-3: canonicalize=True; the refused link comes from an href that is_url accepts only
+    because the userinfo of its patterns (\\S+ … @) reaches an '@' BEHIND the authority
+    (in the path, query or fragment): the authority alone ('scheme://netloc') is not an url for
+    is_url, and canonicalization (dot segments, strip_fragment) removed the '@'"""
+    for r in _origins(case, failure):
+        try:
+            auth, sp = _authority_only(r)
+        except ValueError:
+            continue
+        if "@" in sp.path + "?" + sp.query + "#" + sp.fragment and not _m()["is_url"](auth, **IS_URL_KW):
+            return True
+    return False
+
+
+def _labels_of(r):
+    try:
+        return (_std_urlsplit(r.strip()).hostname or "").split(".")
+    except ValueError:
+        return []
+
+
+def kf_puny_label_hyphen(case, failure):
+    """KF-C17-4: canonicalize=True; a label of the href's host is punycode ('xn--…') and its
+    idna decoding starts or ends with '-' or '_' (is_url accepts the ASCII spelling, whose label
+    starts with 'x', and refuses the decoded one)"""
+    puny = _m()["utils"].attempt_to_decode_idna
+    for r in _origins(case, failure):
+        for lab in _labels_of(r):
+            if lab[:4] == "xn--":
+                d = puny(lab)
+                if d != lab and d and (d[0] in "-_" or d[-1] in "-_"):
+                    return True
+    return False
+
+
+def kf_dotted_capital_i(case, failure):
+    """KF-C17-5: canonicalize=True; a label of the href's host holds U+0130, whose str.lower()
+    is TWO characters ('i' + U+0307), and the lower-cased label is longer than the 64
+    characters the is_url patterns allow"""
+    for r in _origins(case, failure):
+        try:
+            h = _std_urlsplit(r.strip()).netloc.rpartition("@")[2]
+        except ValueError:
+            continue
+        for lab in h.split("."):
+            if DOT_I in lab and len(lab.lower()) > 64 >= len(lab):
+                return True
+    return False
+
+
+def kf_canonical_link_unparsable(case, failure):
+    """RETIRED (ca9f3e6). KF-C17-6 (= KF-C01-1 seen from links_from_html): canonicalize=True; the refused link does not
+    parse any more (urlsplit raises ValueError: a raw '[' / ']' in the userinfo whose content became
+    a bracketed-host look-alike after unquoting), is_url(tld_aware) catches the ValueError and says no"""
+    if "canonicalize=True" not in failure:
+        return False
+    if not (failure.startswith("not-is_url:") or "which is not an absolute http(s) url" in failure):
+        return False
+    l = _refused_link(failure)
+    if l is None:
+        return False
+    try:
+        _std_urlsplit(l.strip())
+    except ValueError:
+        return True
+    return False
+
+
+# ----------------------------------------------------------------------------------------
+# the domain of the theorem canon_preserves_is_url, mirrored on the implementation
+# ----------------------------------------------------------------------------------------
+def in_region(u):
+    """Python mirror of `Ural.UrlPattern.region` (Lemmas/IsUrlShape.lean)"""
+    s = u.strip()
+    scheme = s.split(":", 1)[0]
+    if not all(ch.isascii() and ch.isalpha() for ch in scheme):
+        return False
+    after = s[len(scheme) :][3:]
+    mt = re.search(r"[/?#]", after)
+    rest = after[mt.start() :] if mt else ""
+    return "@" not in rest
+
+
+_label_re = []
+
+
+def _label():
+    """the label sub-pattern of ural's URL pattern: (?:[F][M]{0,62})?[F]"""
+    if not _label_re:
+        p = _m()["pat"]
+        f = "[a-z0-9" + p.UNICODE_HOST_CHARS + "]"
+        mm = "[a-z0-9" + p.UNICODE_HOST_CHARS + "_-]"
+        _label_re.append(re.compile(r"(?:%s%s{0,62})?%s\Z" % (f, mm, f), re.I | re.UNICODE))
+    return _label_re[0]
+
+
+def puny_label_safe_on(r):
+    """PunyLabelSafe evaluated on the real codec for the labels of the host of `r`"""
+    puny = _m()["utils"].attempt_to_decode_idna
+    for lab in _labels_of(r):
+        if lab[:4] == "xn--" and _label().match(lab) and not _label().match(puny(lab)):
+            return False
+    return True
+
+
+def in_theorem_domain(r):
+    """the hypotheses of canon_preserves_is_url + the stated domain of the parser models"""
+    import canon_common as cc
+
+    try:
+        cleaned = cc.clean_impl(r, "https")
+    except Exception:  # noqa
+        cleaned = r
+    return in_region(r) and puny_label_safe_on(r) and outside_concrete([r, cleaned]) is None
+
+
+def theorem_contradicted(case, failure):
+    """a `not-is_url` failure with canonicalize=True whose origin lies INSIDE the domain of the
+    theorem: the implementation contradicts what is proved of the models (model drift or a
+    wrong hypothesis) - never masked by a known finding"""
+    for r in _origins(case, failure):
+        if in_theorem_domain(r):
+            return "CONTRADICTS Ural.Props.C17.canon_preserves_is_url (origin %r is in region, its labels decode to labels, inside the parser model): %s" % (r, failure)
+    return None
+
+
+# (kf_astral_idn / kf_one_digit_port are retired: repaired in /repo, a failure of these classes is a regression again)
+# (kf_canonical_link_unparsable, KF-C17-6, is retired too: repaired in /repo by ca9f3e6)
+KF_PREDICATES = []  # KF-C17-3/4/5 repaired by /repo 6e8a1b4 (their witnesses stay in the corpus)
 
 
 # ----------------------------------------------------------------------------------------
@@ -897,4 +1340,13 @@ def classify(case):
         labs.append("well-formed")
     if not in_unescape_subset(case["doc"]):
         labs.append("outside-unescape-subset(model skipped)")
+    else:
+        hs = _urls(case["doc"])
+        if not case.get("concrete", True):
+            labs.append("concrete-model:not-run(1-in-3 sampling of multi-piece documents)")
+        elif isinstance(hs, list):
+            n_out = sum(1 for w in _concrete_plan(case, hs) if w is None)
+            labs.append("concrete-model:%s" % ("all-8-settings" if n_out == 0 else "withheld(outside-parser-model)" if n_out == 8 else "some-settings"))
+    if case.get("note", "").startswith("KF-"):
+        labs.append("known-finding-witness")
     return sorted(set(labs))
